@@ -34,7 +34,8 @@ def main():
     except Inconclusive as ex:
         c.obligation("framework", "runner", "inconclusive", str(ex))
     except Exception:
-        c.obligation("framework", "runner", "inconclusive", "internal error: " + traceback.format_exc()[-1500:])
+        traceback.print_exc()
+        c.obligation("framework", "runner", "inconclusive", "internal error: " + traceback.format_exc()[-3000:])
     rc = c.finish()
     sys.exit(rc)
 
